@@ -642,7 +642,7 @@ func storeName(c *an.Ctx, r *runnerRoles, rule string) {
 			}
 			repl, _ := an.ConstString(call.Call.Args[2])
 			inner := an.FieldProv(call.Call.Args[1])
-			upper := strings.Contains(inner, "strings.ToUpper(Task.Name)") && strings.Contains(inner, "_OUTPUT")
+			upper := (strings.Contains(inner, "strings.ToUpper(Task.Name)") && strings.Contains(inner, "_OUTPUT")) || isUpperNameOutput(call.Call.Args[1])
 			good = pat == "[^a-zA-Z0-9_]" && repl == "_" && upper
 			why = fmt.Sprintf("pattern %q, replacement %q, input %s", pat, repl, inner)
 		}
@@ -1051,6 +1051,20 @@ func teeElems(v ssa.Value, bind map[*ssa.Parameter]ssa.Value, depth int) (tees [
 		return e
 	}
 	for _, src := range an.Sources(subst(v)) {
+		if mi, ok := src.(*ssa.MakeInterface); ok {
+			src = mi.X
+		}
+		// a hand-written tee: a struct of writers whose Write hands its whole argument to each of them
+		if al, ok := src.(*ssa.Alloc); ok {
+			if fields, ok := teeStruct(al); ok {
+				var elems []ssa.Value
+				for _, fv := range fields {
+					elems = append(elems, subst(fv))
+				}
+				tees = append(tees, elems)
+				continue
+			}
+		}
 		call, ok := src.(*ssa.Call)
 		if !ok {
 			opaque = an.Prov(src)
@@ -1133,4 +1147,99 @@ func isUpperNameOutput(v ssa.Value) bool {
 		}
 	}
 	return true
+}
+
+// teeStruct recognises a hand-written io.MultiWriter: al is a fresh struct of the module all of whose fields are
+// io.Writers, and the Write method of its type calls Write on every field with its own argument, unchanged, before
+// any return with a nil error (so a successful Write has offered all of p to each of them, in field order). It
+// returns what was stored into the fields, in that order.
+func teeStruct(al *ssa.Alloc) ([]ssa.Value, bool) {
+	p := an.CurrentProg
+	if p == nil {
+		return nil, false
+	}
+	named, ok := an.Deref(al.Type()).(*types.Named)
+	if !ok || named.Obj().Pkg() == nil {
+		return nil, false
+	}
+	st, ok := named.Underlying().(*types.Struct)
+	if !ok || st.NumFields() == 0 {
+		return nil, false
+	}
+	isWriter := func(t types.Type) bool {
+		n, ok := t.(*types.Named)
+		return ok && n.Obj().Pkg() != nil && n.Obj().Pkg().Path() == "io" && n.Obj().Name() == "Writer"
+	}
+	for i := 0; i < st.NumFields(); i++ {
+		if !isWriter(st.Field(i).Type()) {
+			return nil, false
+		}
+	}
+	var write *ssa.Function
+	for _, fn := range p.Funcs {
+		if fn.Name() == "Write" && fn.Signature.Recv() != nil && an.Deref(fn.Signature.Recv().Type()) == types.Type(named) && fn.Blocks != nil {
+			write = fn
+		}
+	}
+	if write == nil || len(write.Params) != 2 {
+		return nil, false
+	}
+	calls := make([]ssa.Instruction, st.NumFields())
+	an.EachInstr(write, func(in ssa.Instruction) {
+		call, ok := in.(*ssa.Call)
+		if !ok || !call.Call.IsInvoke() || call.Call.Method.Name() != "Write" || len(call.Call.Args) != 1 || call.Call.Args[0] != ssa.Value(write.Params[1]) {
+			return
+		}
+		u, ok := call.Call.Value.(*ssa.UnOp)
+		if !ok || u.Op != token.MUL {
+			return
+		}
+		fa, ok := u.X.(*ssa.FieldAddr)
+		if !ok || fa.X != ssa.Value(write.Params[0]) {
+			return
+		}
+		if calls[fa.Field] == nil {
+			calls[fa.Field] = call
+		}
+	})
+	for i, cl := range calls {
+		if cl == nil {
+			return nil, false
+		}
+		if i > 0 && !an.Dominates(calls[i-1], cl) {
+			return nil, false
+		}
+	}
+	for _, ret := range an.Returns(write) {
+		if !an.IsNilConst(an.RetVal(ret, 1)) {
+			continue
+		}
+		for _, cl := range calls {
+			if !an.Dominates(cl, ret) {
+				return nil, false
+			}
+		}
+	}
+	// nothing else writes the fields after construction
+	vals := make([]ssa.Value, st.NumFields())
+	for _, ref := range *al.Referrers() {
+		fa, ok := ref.(*ssa.FieldAddr)
+		if !ok {
+			continue
+		}
+		for _, r2 := range *fa.Referrers() {
+			if sto, ok := r2.(*ssa.Store); ok && sto.Addr == ssa.Value(fa) {
+				if vals[fa.Field] != nil {
+					return nil, false
+				}
+				vals[fa.Field] = sto.Val
+			}
+		}
+	}
+	for _, v := range vals {
+		if v == nil {
+			return nil, false
+		}
+	}
+	return vals, true
 }
